@@ -264,6 +264,8 @@ func TestCheck(t *testing.T) {
 		run.Bound("reduced_atom_string_len", 5)
 		c.atomStrings(atomsReduced, 5, 5, &idx, "atoms-reduced")
 	}
+	// (a') block string contents
+	c.blockStrings(&idx)
 	// (b) grammar derivations
 	c.derivations(&idx)
 	// (c) seed edits
@@ -309,6 +311,60 @@ func (c *checker) atomStrings(alpha []string, kmin, kmax int, idx *int64, origin
 			if p < 0 {
 				break
 			}
+		}
+	}
+}
+
+// The alphabet of block string contents: the escape sequence is ONE atom.
+var blockAtoms = []string{"a", " ", `"`, "\\", `\"""`, "\n", "\t", "\r"}
+
+// Hosts: a block string in value position and in every kind of description position.
+var blockHosts = []string{
+	`{a(a:"""%s""")}`,
+	`query($v:S="""%s"""){a}`,
+	`"""%s""" type T{f:Int}`,
+	`type T{"""%s""" f:Int}`,
+	`enum E{"""%s""" A}`,
+	`type T{f("""%s""" a:Int):Int}`,
+}
+
+// blockStrings: every string of <=k block string atoms as the text between
+// the delimiters, in every host.
+func (c *checker) blockStrings(idx *int64) {
+	k := vk.Pick(c.run, 4, 5)
+	c.run.Bound("block_string_atoms", len(blockAtoms))
+	c.run.Bound("block_string_content_len", k)
+	c.run.Bound("block_string_hosts", len(blockHosts))
+	n := len(blockAtoms)
+	for l := 0; l <= k; l++ {
+		ix := make([]int, l)
+		for {
+			if c.run.Mine(*idx) {
+				var b strings.Builder
+				for _, a := range ix {
+					b.WriteString(blockAtoms[a])
+				}
+				for _, h := range blockHosts {
+					c.judge(strings.Replace(h, "%s", b.String(), 1), "block-string")
+				}
+			}
+			*idx++
+			wdTick()
+			p := l - 1
+			for p >= 0 {
+				ix[p]++
+				if ix[p] < n {
+					break
+				}
+				ix[p] = 0
+				p--
+			}
+			if p < 0 {
+				break
+			}
+		}
+		if c.run.Expired() {
+			return
 		}
 	}
 }
